@@ -873,6 +873,133 @@ fn limited(a: &[&str]) -> Option<String> {
 }
 
 // ---------------------------------------------------------------------------------------------
+// PacketBuilder paths
+
+enum Mode {
+    Write(usize),
+    Slice(usize),
+}
+
+fn too_big_usize(e: &err::ValueTooBigError<usize>) -> String {
+    format!(
+        "err(payloadlen(actual={},max={},vt={:?}))",
+        e.actual, e.max_allowed, e.value_type
+    )
+}
+fn build_err(e: &err::packet::BuildWriteError) -> String {
+    use err::packet::BuildWriteError::*;
+    match e {
+        Io(e) => io_err(e),
+        PayloadLen(e) => too_big_usize(e),
+        Ipv4Exts(c) => ipv4_walk(c),
+        Ipv6Exts(c) => ipv6_walk(c),
+        Icmpv6InIpv4 => "err(icmpv6inipv4)".to_string(),
+        ArpHeaderNotMatch => "err(arpheadernotmatch)".to_string(),
+    }
+}
+fn build_slice_err(e: &err::packet::BuildSliceWriteError) -> String {
+    use err::packet::BuildSliceWriteError::*;
+    match e {
+        Space(n) => format!("err(space({}))", n),
+        PayloadLen(e) => too_big_usize(e),
+        Ipv4Exts(c) => ipv4_walk(c),
+        Ipv6Exts(c) => ipv6_walk(c),
+        Icmpv6InIpv4 => "err(icmpv6inipv4)".to_string(),
+        ArpHeaderNotMatch => "err(arpheadernotmatch)".to_string(),
+    }
+}
+
+macro_rules! fin {
+    ($b:expr, $payload:expr, $mode:expr) => {
+        match $mode {
+            Mode::Write(k) => wr_line(k, |w| $b.write(w, $payload), build_err),
+            Mode::Slice(cap) => ws_line(cap, |buf| match $b.write_to_slice(buf, $payload) {
+                Ok(n) => format!("ok(n={})", n),
+                Err(e) => build_slice_err(&e),
+            }),
+        }
+    };
+}
+
+/// `<path> <args…> <payload> <k|cap>`
+fn build(a: &[&str], slice: bool) -> Option<String> {
+    let (a, last) = split_last(a)?;
+    let n: usize = num(last)?;
+    let mode = if slice { Mode::Slice(n) } else { Mode::Write(n) };
+    let (a, payload) = split_last(a)?;
+    let payload = hex(payload)?;
+    let (path, a) = a.split_first()?;
+    Some(match (*path, a) {
+        ("e4u", [s, d, is, id, ttl, sp, dp]) => {
+            let b = PacketBuilder::ethernet2(hex_n::<6>(s)?, hex_n::<6>(d)?)
+                .ipv4(hex_n::<4>(is)?, hex_n::<4>(id)?, num(ttl)?)
+                .udp(num(sp)?, num(dp)?);
+            fin!(b, &payload, mode)
+        }
+        ("ev6u", [s, d, vid, is, id, hop, sp, dp]) => {
+            let vid = match VlanId::try_new(num(vid)?) {
+                Ok(v) => v,
+                Err(_) => return Some("bad-value".to_string()),
+            };
+            let b = PacketBuilder::ethernet2(hex_n::<6>(s)?, hex_n::<6>(d)?)
+                .single_vlan(vid)
+                .ipv6(hex_n::<16>(is)?, hex_n::<16>(id)?, num(hop)?)
+                .udp(num(sp)?, num(dp)?);
+            fin!(b, &payload, mode)
+        }
+        ("4t", [is, id, ttl, sp, dp, seq, win]) => {
+            let b = PacketBuilder::ipv4(hex_n::<4>(is)?, hex_n::<4>(id)?, num(ttl)?).tcp(
+                num(sp)?,
+                num(dp)?,
+                num(seq)?,
+                num(win)?,
+            );
+            fin!(b, &payload, mode)
+        }
+        ("edd4i", [s, d, outer, inner, is, id, ttl, eid, eseq]) => {
+            let (o, i) = match (VlanId::try_new(num(outer)?), VlanId::try_new(num(inner)?)) {
+                (Ok(o), Ok(i)) => (o, i),
+                _ => return Some("bad-value".to_string()),
+            };
+            let b = PacketBuilder::ethernet2(hex_n::<6>(s)?, hex_n::<6>(d)?)
+                .double_vlan(o, i)
+                .ipv4(hex_n::<4>(is)?, hex_n::<4>(id)?, num(ttl)?)
+                .icmpv4_echo_request(num(eid)?, num(eseq)?);
+            fin!(b, &payload, mode)
+        }
+        ("6i6", [is, id, hop, eid, eseq]) => {
+            let b = PacketBuilder::ipv6(hex_n::<16>(is)?, hex_n::<16>(id)?, num(hop)?)
+                .icmpv6_echo_request(num(eid)?, num(eseq)?);
+            fin!(b, &payload, mode)
+        }
+        ("e4i6", [s, d, is, id, ttl, eid, eseq]) => {
+            let b = PacketBuilder::ethernet2(hex_n::<6>(s)?, hex_n::<6>(d)?)
+                .ipv4(hex_n::<4>(is)?, hex_n::<4>(id)?, num(ttl)?)
+                .icmpv6_echo_request(num(eid)?, num(eseq)?);
+            fin!(b, &payload, mode)
+        }
+        ("earp", [s, d, rest @ ..]) => {
+            if !payload.is_empty() {
+                return None;
+            }
+            let arp = match mk_arp(rest)? {
+                Some(p) => p,
+                None => return Some("bad-value".to_string()),
+            };
+            let b = PacketBuilder::ethernet2(hex_n::<6>(s)?, hex_n::<6>(d)?).arp(arp);
+            match mode {
+                Mode::Write(k) => wr_line(k, |w| b.write(w), build_err),
+                Mode::Slice(cap) => ws_line(cap, |buf| match b.write_to_slice(buf) {
+                    Ok(n) => format!("ok(n={})", n),
+                    Err(e) => build_slice_err(&e),
+                }),
+            }
+        }
+        _ => return None,
+    })
+}
+
+// ---------------------------------------------------------------------------------------------
 // dispatch
 
 macro_rules! simple_write {
@@ -1190,6 +1317,8 @@ pub fn run(op: &str, a: &[&str]) -> Option<String> {
         },
         // ---- LimitedReader
         "io.limited" => limited(a)?,
+        "io.build.write" => build(a, false)?,
+        "io.build.wslice" => build(a, true)?,
         _ => return None,
     })
 }
